@@ -105,6 +105,10 @@ def getattr_lib(M, interp, obj, name, node):
     from .models_np import NP_NAN, IndexSet
     if isinstance(obj, ExtRef):
         path = obj.path + '.' + name
+        if obj.path in ('inspect.Parameter', 'inspect._ParameterKind') and hasattr(ParamVal, name) and name.isupper():
+            return getattr(ParamVal, name)        # the parameter kinds, as inspect.signature(...).parameters[...].kind reports them
+        if obj.path == 'inspect.Parameter' and name == 'empty':
+            raise AnalysisError('inspect.Parameter.empty not modelled', node)
         from . import models_pp
         if path in models_pp.CONSTS:
             return models_pp.CONSTS[path]         # `import pyparsing as pp; pp.alphanums`
@@ -201,7 +205,9 @@ def getattr_lib(M, interp, obj, name, node):
         if name == 'parameters':
             a = obj.fv.node.args
             ps = collections.OrderedDict()
-            for p in a.posonlyargs + a.args:
+            for p in a.posonlyargs:
+                ps[p.arg] = ParamVal(p.arg, ParamVal.POSITIONAL_ONLY)
+            for p in a.args:
                 ps[p.arg] = ParamVal(p.arg, ParamVal.POSITIONAL_OR_KEYWORD)
             if a.vararg:
                 ps[a.vararg.arg] = ParamVal(a.vararg.arg, ParamVal.VAR_POSITIONAL)
